@@ -12,6 +12,9 @@ CONSTANTS
   QCap = 1
   Gating = TRUE
   QfRet = TRUE
+  Echo = "xml10"
+  PName = "exact"
+  Deep = "caught"
   LexG = "full"
 INVARIANT InvAllClauses
 INVARIANT InvNeverStuck
